@@ -582,4 +582,5 @@ pub fn run(ctx: &mut Ctx) {
         },
         &arb_check,
     );
+    ctx.fuzz(&crate::fuzzapi::MPLEX_CODEC, 30_000, 600_000, crate::fuzzapi::MPLEX_RUNS_PER_JOB, crate::fuzzapi::FUZZ_JOBS);
 }
